@@ -3,6 +3,7 @@ package main
 import (
 	"go/token"
 	"go/types"
+	"strings"
 
 	"golang.org/x/tools/go/ssa"
 )
@@ -237,7 +238,7 @@ func (st *flowState) field(v, base ssa.Value, fname string, depth int) {
 
 func (st *flowState) call(call *ssa.Call, idx int, depth int) {
 	f := staticCallee(&call.Call)
-	if f == nil || f.Blocks == nil || (st.o.StopAtCall != nil && st.o.StopAtCall(f)) {
+	if f == nil || f.Blocks == nil || !inModule(f) || (st.o.StopAtCall != nil && st.o.StopAtCall(f)) {
 		name := calleeFullName(&call.Call)
 		// append: the result derives from its first argument
 		if b, ok := call.Call.Value.(*ssa.Builtin); ok && b.Name() == "append" {
@@ -394,4 +395,19 @@ func (p *Prog) setMemo(k string, v interface{}) {
 		p.memoM = map[string]interface{}{}
 	}
 	p.memoM[k] = v
+}
+
+// inModule: the function belongs to the analysed module (bodies of dependencies are never followed).
+func inModule(f *ssa.Function) bool {
+	g := f
+	for g.Parent() != nil {
+		g = g.Parent()
+	}
+	if g.Pkg == nil {
+		if o := g.Origin(); o != nil && o.Pkg != nil {
+			return strings.HasPrefix(o.Pkg.Pkg.Path(), modPath)
+		}
+		return false
+	}
+	return strings.HasPrefix(g.Pkg.Pkg.Path(), modPath)
 }
